@@ -24,11 +24,18 @@ class PanicExit(Exception):
 BITS = 64      # integer width of the reference semantics (64 for bash, 32 for batch)
 
 
+SAW_MININT = False     # some arithmetic result was the most negative integer of the current width
+
+
 def wrap64(n):
     """wrap to the current integer width (the name is historical)"""
+    global SAW_MININT
     m = 1 << BITS
     n &= m - 1
-    return n - m if n >= (m >> 1) else n
+    r = n - m if n >= (m >> 1) else n
+    if r == -(m >> 1):
+        SAW_MININT = True
+    return r
 
 
 def go_div(a, b):
@@ -307,6 +314,8 @@ class Interp:
             b = self.ev(e[3], env, genv)
             op = e[1]
             if isinstance(a, str):
+                if len(a) + len(b) > 4000:
+                    raise Undefined("string budget")
                 return a + b
             if op == "+":
                 return wrap64(a + b)
@@ -555,7 +564,8 @@ LAST = None     # the interpreter of the last `interpret` call (flags: panic_in_
 
 
 def interpret(prog, max_steps=20000):
-    global LAST
+    global LAST, SAW_MININT
+    SAW_MININT = False
     it = Interp(max_steps)
     out, status = it.run(prog)
     LAST = it
@@ -1150,10 +1160,11 @@ def generate(rng, cfg, tries=50):
             out, status = interpret(prog)
         except Undefined:
             continue
-        except RecursionError:
+        except (RecursionError, MemoryError):
             continue
         g.kinds["_panic_in_func"] = LAST.panic_in_func
         g.kinds["_empty_substr"] = LAST.empty_substr
+        g.kinds["_minint"] = SAW_MININT
         return prog, pp_program(prog), out, status, g.kinds
     return None
 
@@ -1347,9 +1358,10 @@ def generate2(rng, cfg, transform=None, tries=50):
             out, status = interpret(prog)
         except Undefined:
             continue
-        except RecursionError:
+        except (RecursionError, MemoryError):
             continue
         g.kinds["_panic_in_func"] = LAST.panic_in_func
         g.kinds["_empty_substr"] = LAST.empty_substr
+        g.kinds["_minint"] = SAW_MININT
         return prog, pp_program(prog), out, status, g.kinds
     return None
